@@ -474,7 +474,7 @@ def process_event_branches(tab):
         effs = []
         for s in node.body:
             txt = ast.unparse(s)
-            if txt.startswith("self._print("):
+            if txt.startswith("self._print(") or isinstance(s, ast.Pass):
                 continue
             for pat, eff in EFFECT_PATTERNS:
                 if txt == pat:
@@ -529,6 +529,17 @@ def clist(xs):
 
 
 def generate(repo):
+    """fail closed: on a construct the extractor does not understand, Gen/Serial.v is replaced by a
+    file that cannot compile, so every dependent proof is reported as a broken obligation"""
+    try:
+        return _generate(repo)
+    except Untranslatable as e:
+        msg = str(e).replace("*)", "* )")
+        return [("Serial.v", "(* UNTRANSLATABLE: %s *)\nDefinition untranslatable : True := 0.\n" % msg,
+                 [dict(name="UNTRANSLATABLE", file=FILES["simulator"], qual=msg)])]
+
+
+def _generate(repo):
     tab = Table(repo)
     lines = ["From Coq Require Import ZArith List String.", "From ACN Require Import Base.ResumeBase.",
              "Import ListNotations.", "Open Scope string_scope.", ""]
